@@ -73,9 +73,16 @@ YangB(S) == "module b { namespace \"urn:b\"; prefix b; import a { prefix a; } id
 
 \* ------------------------------------------------------------ value classes
 \* wide = TRUE: every class of the statement; FALSE: two per type (used in combinations)
+\* strings needing escaping (RFC 6020 9.4: a string is any sequence of XML 1.0 characters, i.e. TAB, LF, CR and
+\* everything from U+0020 on): the three legal C0 controls, DEL, a C1 control, the characters JSON / XML / HTML-safe
+\* writers treat specially (quote, backslash, slash, < > & '), BMP characters that are legal but not "printable"
+\* (zero-width space, line separator, U+FFFD), a lone combining mark, an astral printable and an astral
+\* non-printable (tag) character.  How a writer escapes them is its business; the document must parse and give
+\* back the same string.
 StrVals(wide) == IF wide THEN <<"x", "", "a b", "{22}q{5C}", "{3C}{26}{3E}{27}", "l{A}b", "t{9}", "{E9}{20AC}", "{1F600}",
-                                "true", "12", " lead", "null", "a:b", "]]{3E}", "c{D}r">>
-                 ELSE <<"x", "{22}{3C}{26}{E9}">>
+                                "true", "12", " lead", "null", "a:b", "]]{3E}", "c{D}r",
+                                "d{7F}l", "n{85}{9F}", "s/l{5C}/", "{E0001}g", "{301}", "z{200B}{2028}w", "{FFFD}">>
+                 ELSE <<"x", "{22}{3C}{26}{E9}{7F}">>
 ValsOf(ty, mod, wide) ==
   LET b == ty.b IN
   CASE b = "int8" -> IF wide THEN <<"-128", "127", "0", "5">> ELSE <<"-128", "5">>
@@ -94,7 +101,7 @@ ValsOf(ty, mod, wide) ==
     [] b = "boolean" -> <<"true", "false">>
     [] b = "enumeration" -> ty.en
     [] b = "identityref" -> IF mod = "a" THEN <<"loc-id", "b:for-id">> ELSE <<"for-id", "a:loc-id">>
-KeyVals(ty) == IF ty.b = "string" THEN <<"kb", "ka", "k {22}c">> ELSE IF ty.b = "int8" THEN <<"-3", "2">> ELSE <<"7", "4294967295">>
+KeyVals(ty) == IF ty.b = "string" THEN <<"kb", "ka", "k {22}{7F}c">> ELSE IF ty.b = "int8" THEN <<"-3", "2">> ELSE <<"7", "4294967295">>
 
 \* ----------------------------------------------------------- trees of a schema
 \* sequences of length 1..2 over a pool (user-ordered: both orders; else one order per pair)
